@@ -22,7 +22,7 @@ Proof.
   apply Forall_app. split; [constructor; [exact Hx | constructor] | now apply Forall_skipn'].
 Qed.
 
-Lemma step_inv s i : sinv s -> sinv (step fields true s i).
+Lemma step_inv s i : sinv s -> sinv (step fields true true s i).
 Proof.
   intros H. unfold step. destruct (nth_error (threads s) i) as [t|] eqn:E; [|exact H].
   assert (Ht : tinv t).
@@ -36,12 +36,13 @@ Proof.
       unfold enter. apply Forall_set_nth; [exact H|]. split; cbn; [now rewrite Hws | exact Hf].
   - apply Forall_set_nth; [exact H|]. split; cbn; [|reflexivity].
     rewrite Hws. cbn. now rewrite N.eqb_refl.
-  - destruct ((dc && mem_N d (cache s)) || mem_N d (eff_ws true s t)).
+  - destruct ((dc && mem_N d (cache s)) || (true && mem_N d (eff_ws true s t))) eqn:Ec.
     + apply Forall_set_nth; [exact H|]. split; cbn; [exact Hws | reflexivity].
-    + unfold enter. apply Forall_set_nth; [exact H|]. split; cbn; [now rewrite Hws | exact Hf].
+    + apply Bool.orb_false_iff in Ec. destruct Ec as [_ Ec]. cbn [andb] in Ec. rewrite Ec.
+      unfold enter. apply Forall_set_nth; [exact H|]. split; cbn; [now rewrite Hws | exact Hf].
 Qed.
 
-Lemma run_inv sched : forall s, sinv s -> sinv (run fields true s sched).
+Lemma run_inv sched : forall s, sinv s -> sinv (run fields true true s sched).
 Proof. induction sched as [|i sched IH]; intros s H; cbn; [exact H|]. apply IH. now apply step_inv. Qed.
 
 Lemma init_inv reqs : sinv (init reqs).
@@ -50,7 +51,7 @@ Proof.
 Qed.
 
 (* every schedule of any number of threads, any class graph, any requests *)
-Theorem no_thread_fails reqs sched : any_failed (run fields true (init reqs) sched) = false.
+Theorem no_thread_fails reqs sched : any_failed (run fields true true (init reqs) sched) = false.
 Proof.
   pose proof (run_inv sched (init reqs) (init_inv reqs)) as H.
   unfold any_failed. apply Bool.not_true_is_false. intros X. apply existsb_exists in X. destruct X as (t & Hin & Hf).
@@ -88,7 +89,7 @@ Proof. destruct below; reflexivity. Qed.
 Lemma bottom_push fr x below : bottom (fr :: x :: below) = bottom (x :: below).
 Proof. reflexivity. Qed.
 
-Lemma step_rinv reqs s i : sinv s -> Forall2 rinv (threads s) reqs -> Forall2 rinv (threads (step fields true s i)) reqs.
+Lemma step_rinv reqs s i : sinv s -> Forall2 rinv (threads s) reqs -> Forall2 rinv (threads (step fields true true s i)) reqs.
 Proof.
   intros HS H. unfold step. destruct (nth_error (threads s) i) as [t|] eqn:E; [|exact H].
   assert (Ht : tinv t).
@@ -110,14 +111,15 @@ Proof.
     + intros Hne. destruct below as [|fr below']; [contradiction|]. exists c0, rest. split; [exact Et|].
       rewrite bottom_push in Eb. exact Eb.
   - destruct (Hbot ltac:(discriminate)) as (c0 & rest & Et & Eb).
-    destruct ((dc && mem_N d (cache s)) || mem_N d (eff_ws true s t)).
+    destruct ((dc && mem_N d (cache s)) || (true && mem_N d (eff_ws true s t))) eqn:Ec;
+      [|apply Bool.orb_false_iff in Ec; destruct Ec as [_ Ec]; cbn [andb] in Ec; rewrite Ec].
     + unfold set_thread. cbn [threads]. apply U. split; cbn [finished todo stack]; [exact Hfin|]. intros _. exists c0, rest. split; [exact Et|].
       rewrite (bottom_top c ds cached ((d, dc) :: ds) cached). exact Eb.
     + unfold enter, set_thread. cbn [threads]. apply U. split; cbn [finished todo stack]; [exact Hfin|]. intros _. exists c0, rest. split; [exact Et|].
       rewrite bottom_push. rewrite (bottom_top c ds cached ((d, dc) :: ds) cached). exact Eb.
 Qed.
 
-Lemma run_rinv reqs sched : forall s, sinv s -> Forall2 rinv (threads s) reqs -> Forall2 rinv (threads (run fields true s sched)) reqs.
+Lemma run_rinv reqs sched : forall s, sinv s -> Forall2 rinv (threads s) reqs -> Forall2 rinv (threads (run fields true true s sched)) reqs.
 Proof.
   induction sched as [|i sched IH]; intros s HS H; cbn; [exact H|]. apply IH; [now apply step_inv | now apply step_rinv].
 Qed.
@@ -129,7 +131,7 @@ Qed.
 
 (* every schedule: each thread's completed requests followed by its pending ones are exactly its requests, in order *)
 Theorem finished_is_a_prefix reqs sched :
-  Forall2 (fun t r => failed t = false /\ finished t ++ todo t = r) (threads (run fields true (init reqs) sched)) reqs.
+  Forall2 (fun t r => failed t = false /\ finished t ++ todo t = r) (threads (run fields true true (init reqs) sched)) reqs.
 Proof.
   pose proof (run_rinv reqs sched (init reqs) (init_inv reqs) (init_rinv reqs)) as H.
   pose proof (run_inv sched (init reqs) (init_inv reqs)) as HS. unfold sinv in HS. rewrite Forall_forall in HS.
@@ -140,7 +142,7 @@ Qed.
 
 (* ... so a thread with nothing left to do has completed exactly its requests: what the sequential execution completes *)
 Corollary idle_thread_completed_its_requests reqs sched i t r :
-  nth_error (threads (run fields true (init reqs) sched)) i = Some t -> nth_error reqs i = Some r ->
+  nth_error (threads (run fields true true (init reqs) sched)) i = Some t -> nth_error reqs i = Some r ->
   todo t = [] -> failed t = false /\ finished t = r.
 Proof.
   intros Ht Hr Htodo. destruct (Forall2_nth _ _ _ (finished_is_a_prefix reqs sched) i t Ht) as (x & Ex & Hf & Hp).
